@@ -145,9 +145,8 @@ func validHostname(s string) bool {
 
 	s = strings.ToLower(s)
 
-	maxLength := 253
+	maxLength := 253 // not counting a trailing dot, which is removed first
 	if s[len(s)-1] == '.' {
-		maxLength = 254
 		s = s[:len(s)-1] // remove the last dot --> easier computations
 	}
 
